@@ -468,6 +468,9 @@ func (e *Engine) lemmaObligations(id string, keys []string) []*Obligation {
 			p := x.newPath()
 			ctx := &EvalCtx{x: x, p: p, pkg: pkg}
 			for _, ax := range e.cs.Axioms[pkg] {
+				if ax.File != lem.File {
+					continue
+				}
 				s, err := ctx.EvalBool(ax.E)
 				if err == nil {
 					p.assume(s)
@@ -477,6 +480,9 @@ func (e *Engine) lemmaObligations(id string, keys []string) []*Obligation {
 			for _, l2 := range e.cs.Lemmas[pkg] {
 				if l2 == lem {
 					break
+				}
+				if l2.File != lem.File {
+					continue
 				}
 				if s, err := ctx.EvalBool(l2.E); err == nil {
 					p.assume(s)
